@@ -68,7 +68,29 @@ class NpShim:
         return v
 
     @staticmethod
+    def cos(x):
+        if type(x).__name__ == "SymFP":
+            from . import fp
+            return fp.np_cos(x)
+        if is_sym(x):
+            raise Unsupported("numpy.cos on a symbolic value")
+        import numpy
+        return numpy.cos(x)
+
+    @staticmethod
+    def arccos(x):
+        if type(x).__name__ == "SymFP":
+            from . import fp
+            return fp.np_arccos(x)
+        if is_sym(x):
+            raise Unsupported("numpy.arccos on a symbolic value")
+        import numpy
+        return numpy.arccos(x)
+
+    @staticmethod
     def floor(x):
+        if type(x).__name__ == "SymFP":
+            return x.floor()
         if isinstance(x, SymReal):
             return core.real_floor(x)
         if isinstance(x, SymInt):
@@ -81,6 +103,9 @@ class NpShim:
         if not (is_sym(a) or is_sym(b)):
             import numpy
             return numpy.isclose(a, b, rtol=rtol, atol=atol)
+        if type(a).__name__ == "SymFP" or type(b).__name__ == "SymFP":
+            from . import fp
+            return fp.np_isclose(a, b, rtol, atol)
         a, b = SymReal.of(a), SymReal.of(b)
         return abs(a - b) <= atol + rtol * abs(b)
 
